@@ -90,7 +90,7 @@ class _Authn:
     """legacy authentication policy: the principals are those of the case"""
 
     def effective_principals(self, request):
-        return list(request._c11_principals)
+        return request._c11_principals            # the container of the case, as it is
 
     def authenticated_userid(self, request):
         return None
@@ -109,7 +109,8 @@ def _view(context, request):
 
 
 class World:
-    def __init__(self, perms):
+    def __init__(self, perms, policies=True):
+        """policies=False: a registry WITHOUT any security / authentication / authorization policy"""
         with warnings.catch_warnings():
             warnings.simplefilter('ignore')
             from pyramid.config import Configurator
@@ -119,10 +120,12 @@ class World:
             from pyramid import security
             self.policy = ACLAuthorizationPolicy()
             config = Configurator()
-            config.set_authentication_policy(_Authn())
-            config.set_authorization_policy(self.policy)
+            if policies:
+                config.set_authentication_policy(_Authn())
+                config.set_authorization_policy(self.policy)
             self.config, self.views = config, set()
-            for p in perms:
+            config.commit()
+            for p in (perms if policies else ()):
                 self.ensure_view(p)
         self.registry = config.registry
         self.Request, self.manager, self.security = Request, manager, security
@@ -146,6 +149,12 @@ class World:
     def has_permission(self, context, principals, permission):
         return self.request(principals).has_permission(permission, context)
 
+    def has_permission_default(self, context, principals, permission):
+        """request.has_permission(permission) WITHOUT a context argument: the request's own context is used"""
+        r = self.request(principals)
+        r.context = context
+        return r.has_permission(permission)
+
     def view_execution_permitted(self, context, principals, permission):
         self.ensure_view(permission)
         return self.security.view_execution_permitted(context, self.request(principals), name=permission)
@@ -158,6 +167,18 @@ class World:
                 return self.security.principals_allowed_by_permission(context, permission)
         finally:
             self.manager.pop()
+
+
+class BrokenWorld:
+    """stands in for a World whose construction raised: the direct policy object still works, every registry route raises"""
+
+    def __init__(self, exc, policy):
+        self.exc, self.policy = exc, policy
+
+    def _fail(self, *a, **kw):
+        raise RuntimeError('registry could not be configured: %r' % (self.exc,))
+
+    has_permission = has_permission_default = view_execution_permitted = principals_allowed = ensure_view = _fail
 
 
 if __name__ == '__main__':
